@@ -67,7 +67,10 @@ Inductive val : Type :=
 | VPal (p : pal)
 | VPalPend (vals : list Z) (cap pb : Z) (key : Z)    (* between ids[key] = len(values) and the append *)
 | VStore (d : bstore) | VCont (c : pc) | VCfg (cf : cfg)
-| VTup (l : list val).
+| VTup (l : list val)
+| VTyped (ty : string) (z : Z)          (* a local of a named integer type: pk.VarInt, pk.UnsignedByte *)
+| VReader (s : list N)                 (* the io.Reader: the bytes not yet consumed (flat semantics) *)
+| VErr (e : N).                        (* a non-nil error (nil is VNil) *)
 
 Definition env := list (string * val).
 
@@ -131,9 +134,11 @@ Definition set_field (v : val) (f : string) (x : val) : option val :=
   | VPalPend vals cap pb key, VSlice l c =>
       if String.eqb f "values" && zlist_eqb l (vals ++ [key]) && (c =? cap)
       then Some (VPal (PHash l cap pb)) else None
+  | VPal (PSingle _), VZ z => if String.eqb f "v" then Some (VPal (PSingle z)) else None
   | VCont c, VPal p => if String.eqb f "palette" then Some (VCont (mkPC (cbits c) (ccfg c) p (cdata c))) else None
   | VCont c, VStore d => if String.eqb f "data" then Some (VCont (mkPC (cbits c) (ccfg c) (cpal c) d)) else None
   | VCont c, VZ b => if String.eqb f "bits" then Some (VCont (mkPC b (ccfg c) (cpal c) (cdata c))) else None
+  | VCont c, VCfg cf => if String.eqb f "config" then Some (VCont (mkPC (cbits c) cf (cpal c) (cdata c))) else None
   | _, _ => None
   end.
 
@@ -151,28 +156,67 @@ Definition set_lv (e : env) (lv : gexpr) (x : val) : option env :=
   end.
 
 (* ---------- method primitives (the model) ---------- *)
+(* what the interpreter is parameterised by: the meaning of the recursive newContainer.Set and the fuel
+   the model's palette reader runs on *)
+Record prims : Type := mkPrims { p_set : pc -> Z -> Z -> pc * outcome; p_rfuel : nat }.
+
+Definition as_int (v : val) : option Z := match v with VZ z => Some z | VTyped _ z => Some z | _ => None end.
+Definition is_err (v : val) : option bool := match v with VNil => Some false | VErr _ => Some true | _ => None end.
+(* err != nil, err == nil *)
+Definition err_cmp (op : string) (a b : val) : option bool :=
+  match is_err a, is_err b with
+  | Some x, Some y => if String.eqb op "!=" then Some (xorb x y) else if String.eqb op "==" then Some (negb (xorb x y)) else None
+  | _, _ => None
+  end.
+(* a (count, error) result of a ReadFrom and the reader afterwards *)
+Definition read_res {A} (r : fres (A * N)) (mk : A -> val) (old : val) : val * pres * option val :=
+  match r with
+  | FOk (a, n) rest => (mk a, PV (VTup [VZ (Z.of_N n); VNil]), Some (VReader rest))
+  | FErr e => (old, PV (VTup [VZ 0; VErr e]), Some (VReader []))
+  | FPanic w => (old, PP w, None)
+  | FFuel => (old, PStuck, None)
+  end.
+
 Definition of_outcome (o : outcome) : pres :=
   match o with ORet v => PV (VZ v) | OUnit => PV VUnit | OPanic w => PP w | OErr => PStuck end.
 
-Definition prim (setf : pc -> Z -> Z -> pc * outcome) (rv : val) (m : string) (args : list val) : val * pres :=
+Definition prim (setf : prims) (rv : val) (m : string) (args : list val) : val * pres * option val :=
   match rv, args with
   | VPal p, [VZ a] =>
       if String.eqb m "id" then
-        (VPal (fst (fst (pal_id p a))), PV (VTup [VZ (snd (fst (pal_id p a))); VB (snd (pal_id p a))]))
-      else if String.eqb m "value" then (rv, match pal_value p a with Some v => PV (VZ v) | None => PP pPal end)
-      else (rv, PStuck)
+        (VPal (fst (fst (pal_id p a))), PV (VTup [VZ (snd (fst (pal_id p a))); VB (snd (pal_id p a))]), None)
+      else if String.eqb m "value" then (rv, match pal_value p a with Some v => PV (VZ v) | None => PP pPal end, None)
+      else (rv, PStuck, None)
+  | VPal p, [VReader s] =>
+      if String.eqb m "ReadFrom" then read_res (run_flat (pal_read (p_rfuel setf) p) s) VPal rv else (rv, PStuck, None)
+  | VStore d, [VReader s] =>
+      if String.eqb m "ReadFrom" then read_res (run_flat (bs_read d) s) VStore rv else (rv, PStuck, None)
+  | VTyped ty _, [VReader s] =>
+      if String.eqb m "ReadFrom" then
+        if String.eqb ty "pk.VarInt" then read_res (run_flat read32 s) (VTyped ty) rv
+        else if String.eqb ty "pk.UnsignedByte" then
+          match s with
+          | [] => (rv, PV (VTup [VZ 0; VErr eEOF]), Some (VReader []))
+          | b :: t => (VTyped ty (Z.of_N (b mod 256)), PV (VTup [VZ 1; VNil]), Some (VReader t))
+          end
+        else (rv, PStuck, None)
+      else (rv, PStuck, None)
   | VStore d, [VZ i] =>
-      if String.eqb m "Get" then (VStore (fst (bs_get d i)), of_outcome (snd (bs_get d i))) else (rv, PStuck)
+      if String.eqb m "Get" then (VStore (fst (bs_get d i)), of_outcome (snd (bs_get d i)), None)
+      else if String.eqb m "Fix" then
+        (VStore (fst (bs_fix d i)),
+         match snd (bs_fix d i) with OUnit => PV VNil | OErr => PV (VErr 4%N) | OPanic w => PP w | ORet _ => PStuck end, None)
+      else (rv, PStuck, None)
   | VStore d, [VZ i; VZ v] =>
-      if String.eqb m "Set" then (VStore (fst (bs_set d i v)), of_outcome (snd (bs_set d i v))) else (rv, PStuck)
-  | VStore d, [] => if String.eqb m "Len" then (rv, PV (VZ (blen d))) else (rv, PStuck)
+      if String.eqb m "Set" then (VStore (fst (bs_set d i v)), of_outcome (snd (bs_set d i v)), None) else (rv, PStuck, None)
+  | VStore d, [] => if String.eqb m "Len" then (rv, PV (VZ (blen d)), None) else (rv, PStuck, None)
   | VCfg cf, [VZ b] =>
-      if String.eqb m "create" then (rv, PV (VPal (cfg_create cf b)))
-      else if String.eqb m "bits" then (rv, PV (VZ (cfg_bits cf b))) else (rv, PStuck)
+      if String.eqb m "create" then (rv, PV (VPal (cfg_create cf b)), None)
+      else if String.eqb m "bits" then (rv, PV (VZ (cfg_bits cf b)), None) else (rv, PStuck, None)
   | VCont c, [VZ i; VZ v] =>
-      if String.eqb m "Set" then (VCont (fst (setf c i v)), of_outcome (snd (setf c i v))) else (rv, PStuck)
-  | VCont c, [VZ i] => if String.eqb m "Get" then (rv, of_outcome (pc_get c i)) else (rv, PStuck)
-  | _, _ => (rv, PStuck)
+      if String.eqb m "Set" then (VCont (fst (p_set setf c i v)), of_outcome (snd (p_set setf c i v)), None) else (rv, PStuck, None)
+  | VCont c, [VZ i] => if String.eqb m "Get" then (rv, of_outcome (pc_get c i), None) else (rv, PStuck, None)
+  | _, _ => (rv, PStuck, None)
   end.
 
 Definition bin_int (op : string) (a b : Z) : option val :=
@@ -209,7 +253,7 @@ Definition lit_val (ty : string) (fs : list (string * val)) : option val :=
 
 (* ====================== expressions ====================== *)
 
-Fixpoint eval (setf : pc -> Z -> Z -> pc * outcome) (fuel : nat) (e : env) (x : gexpr) : eres :=
+Fixpoint eval (setf : prims) (fuel : nat) (e : env) (x : gexpr) : eres :=
   match fuel with
   | O => EStuck
   | S f =>
@@ -247,13 +291,15 @@ Fixpoint eval (setf : pc -> Z -> Z -> pc * outcome) (fuel : nat) (e : env) (x : 
               if ba then EV e1 (VB true)
               else match ev e1 b with EV e2 (VB bb) => EV e2 (VB bb) | EV _ _ => EStuck | r => r end
             else EStuck
-        | EV e1 (VZ za) =>
+        | EV e1 va =>
             match ev e1 b with
-            | EV e2 (VZ zb) => match bin_int op za zb with Some r => EV e2 r | None => EStuck end
-            | EV _ _ => EStuck
+            | EV e2 vb =>
+                match as_int va, as_int vb with
+                | Some za, Some zb => match bin_int op za zb with Some r => EV e2 r | None => EStuck end
+                | _, _ => match err_cmp op va vb with Some r => EV e2 (VB r) | None => EStuck end
+                end
             | r => r
             end
-        | EV _ _ => EStuck
         | r => r
         end
     | EUn op a =>
@@ -281,6 +327,10 @@ Fixpoint eval (setf : pc -> Z -> Z -> pc * outcome) (fuel : nat) (e : env) (x : 
         end
     | ESlice _ _ _ => EStuck
     | ELit ty fs =>
+        (* statesCfg{} / biomesCfg{}: the configuration value bound to the type's name *)
+        if (String.eqb ty "statesCfg" || String.eqb ty "biomesCfg") && (List.length fs =? 0)%nat then
+          match lookup e ty with Some v => EV e v | None => EStuck end
+        else
         (* the field values in source order *)
         match evs e (map snd fs) with
         | LV e1 vs =>
@@ -315,7 +365,7 @@ Fixpoint eval (setf : pc -> Z -> Z -> pc * outcome) (fuel : nat) (e : env) (x : 
               | _ => EStuck
               end
             else if String.eqb fn "int" || String.eqb fn "T" then
-              match vs with [VZ z] => EV e1 (VZ z) | _ => EStuck end
+              match vs with [v] => match as_int v with Some z => EV e1 (VZ z) | None => EStuck end | _ => EStuck end
             else if String.eqb fn "NewBitStorage" then
               match vs with
               | [VZ b; VZ n; VNil] => match bs_new b n None with ROk d => EV e1 (VStore d) | RPanic w => EP e1 w end
@@ -330,9 +380,18 @@ Fixpoint eval (setf : pc -> Z -> Z -> pc * outcome) (fuel : nat) (e : env) (x : 
         | EV e1 rv =>
             match evs e1 args with
             | LV e2 vs =>
-                let '(rv', r) := prim setf rv m vs in
+                let '(rv', r, nr) := prim setf rv m vs in
                 match set_lv e2 recv rv' with
-                | Some e3 => match r with PV v => EV e3 v | PP w => EP e3 w | PStuck => EStuck end
+                | Some e3 =>
+                    (* a consumed reader goes back to the variable it was passed from *)
+                    match (match nr, args with
+                           | Some nv, [EId rn] => upd e3 rn nv
+                           | Some _, _ => None
+                           | None, _ => Some e3
+                           end) with
+                    | Some e4 => match r with PV v => EV e4 v | PP w => EP e4 w | PStuck => EStuck end
+                    | None => EStuck
+                    end
                 | None => EStuck
                 end
             | LStuck => EStuck
@@ -408,7 +467,7 @@ Fixpoint eval_rets (ev : env -> gexpr -> eres) (e : env) (xs : list gexpr) (acc 
               end
   end.
 
-Fixpoint exec (setf : pc -> Z -> Z -> pc * outcome) (fuel : nat) (e : env) (s : gstmt) : sres :=
+Fixpoint exec (setf : prims) (fuel : nat) (e : env) (s : gstmt) : sres :=
   match fuel with
   | O => SStuck
   | S f =>
@@ -466,8 +525,30 @@ Fixpoint exec (setf : pc -> Z -> Z -> pc * outcome) (fuel : nat) (e : env) (s : 
         | EP e1 w => SP e1 w
         | EStuck => SStuck
         end
+    | SAssign [lv1; lv2] "=" [x] =>
+        match ev e x with
+        | EV e1 (VTup [v1; v2]) =>
+            match set_lv e1 lv1 v1 with
+            | Some e2 => match set_lv e2 lv2 v2 with Some e3 => SN e3 | None => SStuck end
+            | None => SStuck
+            end
+        | EV _ _ => SStuck | EP e1 w => SP e1 w | EStuck => SStuck
+        end
+    | SAssign [lv] "+=" [x] =>
+        match ev e lv with
+        | EV e1 va => match ev e1 x with
+                      | EV e2 vb => match as_int va, as_int vb with
+                                    | Some a, Some b => match set_lv e2 lv (VZ (a + b)) with Some e3 => SN e3 | None => SStuck end
+                                    | _, _ => SStuck
+                                    end
+                      | EP e2 w => SP e2 w | EStuck => SStuck
+                      end
+        | EP e1 w => SP e1 w | EStuck => SStuck
+        end
     | SAssign _ _ _ => SStuck
-    | SVar _ _ => SStuck
+    | SVar names ty =>
+        (* zero values: named integer types of package pk, nil for interfaces *)
+        SN (fold_left (fun acc x => (x, if prefixb "pk." ty then VTyped ty 0 else VNil) :: acc) names e)
     | SIf init c th el =>
         match block e init with
         | SN e1 =>
@@ -515,20 +596,31 @@ Fixpoint exec (setf : pc -> Z -> Z -> pc * outcome) (fuel : nat) (e : env) (s : 
     end
   end.
 
-Definition exec_body (setf : pc -> Z -> Z -> pc * outcome) (fuel : nat) (e : env) (ss : list gstmt) : sres :=
+Definition exec_body (setf : prims) (fuel : nat) (e : env) (ss : list gstmt) : sres :=
   seq_exec (exec setf fuel) e ss.
 
 (* ====================== running a translated function ====================== *)
 
-Definition no_set : pc -> Z -> Z -> pc * outcome := fun c _ _ => (c, OErr).
+Definition no_set : prims := mkPrims (fun c _ _ => (c, OErr)) 0.
 Definition run_fuel : nat := 12.
 
 (* a method: receiver and arguments bound to their Go names *)
-Definition run (setf : pc -> Z -> Z -> pc * outcome) (fn : gfunc) (recv : val) (args : list val) : sres :=
+Definition run (setf : prims) (fn : gfunc) (recv : val) (args : list val) : sres :=
   match bind_all [(fst (g_recv fn), recv)] (map fst (g_params fn)) args with
   | Some e => exec_body setf run_fuel e (g_body fn)
   | None => SStuck
   end.
+
+(* the same with global bindings below the parameters (configuration values, package names) *)
+Definition run_g (genv : env) (setf : prims) (fn : gfunc) (recv : val) (args : list val) : sres :=
+  match bind_all ((fst (g_recv fn), recv) :: genv) (map fst (g_params fn)) args with
+  | Some e => exec_body setf run_fuel e (g_body fn)
+  | None => SStuck
+  end.
+(* statesCfg{} / block.BitsPerBlock and biomesCfg{} / biome.BitsPerBiome for registry widths gs, gb *)
+Definition cfg_env (gs gb : Z) : env :=
+  [("statesCfg", VCfg (mkCfg KStates gs)); ("block", VCfg (mkCfg KStates gs));
+   ("biomesCfg", VCfg (mkCfg KBiomes gb)); ("biome", VCfg (mkCfg KBiomes gb))].
 
 (* the receiver after the call *)
 Definition recv_of (fn : gfunc) (e : env) : option val := lookup e (fst (g_recv fn)).
